@@ -1530,6 +1530,29 @@ def c18_live_lookups(run, S):
         run.violation("registry.get('bank')", ["the live package"], "differs from the files on disk composed in "
                       "file-name order", "equal", "bank files read with json.load", kind="config")
         return
+    # the effective data do not depend on the configuration of the process that loads them
+    import hashlib
+    import subprocess
+    import sys as _sys
+    from realops import REPO as _REPO
+
+    def digest(banks, table):
+        t = {cc: {k: v for k, v in e.items() if k != "regex"} for cc, e in table.items()}
+        return hashlib.sha256(_json.dumps([banks, t], sort_keys=True, ensure_ascii=True, default=str).encode()).hexdigest()
+    code = ("import sys, json, hashlib; sys.path.insert(0, %r)\n"
+            "from schwifty import registry\nimport schwifty.iban\n"
+            "t = {cc: {k: v for k, v in e.items() if k != 'regex'} for cc, e in registry.get('iban').items()}\n"
+            "print(hashlib.sha256(json.dumps([registry.get('bank'), t], sort_keys=True, ensure_ascii=True, "
+            "default=str).encode()).hexdigest())\n") % _REPO
+    want = digest([dict(e) for e in registry_get_bank_raw()], S.table)
+    for name, flags, env in process_configs():
+        pr = subprocess.run([_sys.executable] + flags + ["-c", code], capture_output=True, env=env)
+        got = pr.stdout.decode(errors="replace").strip() or ("no output: " + pr.stderr.decode(errors="replace")[-300:])
+        run.count(1, tag="registry digest (" + name + ")")
+        if got != want:
+            run.violation("registry.get('bank') / registry.get('iban') in a fresh interpreter", [name], got[:300],
+                          want, "digest of the effective data under another process configuration", kind="config")
+            break
     first = {}
     for e in S.banks:
         if e["bank_code"]:
@@ -2374,6 +2397,20 @@ def c15(run):
     run.samples.append({"history": [readable_op(o) for o in pool[:6]]})
 
 
+def process_configs():
+    """(name, interpreter flags, environment) of the process configurations a result must not depend on."""
+    base = dict(os.environ)
+    out = []
+    for hs in ("0", "1", "12345"):
+        out.append(("PYTHONHASHSEED=" + hs, [], dict(base, PYTHONHASHSEED=hs)))
+    out.append(("python -O", ["-O"], dict(base, PYTHONHASHSEED="0")))
+    out.append(("python -OO", ["-OO"], dict(base, PYTHONHASHSEED="0")))
+    c_locale = dict(base, PYTHONHASHSEED="0", LC_ALL="C", LANG="C", PYTHONUTF8="0", PYTHONCOERCECLOCALE="0",
+                    PYTHONIOENCODING="utf-8")
+    out.append(("LC_ALL=C PYTHONUTF8=0 PYTHONCOERCECLOCALE=0", [], c_locale))
+    return out
+
+
 def readable_op(op):
     from checklib import readable
     return op[0] + "(" + ", ".join(readable(x) for x in op[1:]) + ")"
@@ -2469,6 +2506,46 @@ def c14(run):
                     b = e["bank_code"] + a
                     ops.append(["iban.new", hx("DE" + iban_check_digits("DE", b) + b), "F", "T"])
                 pairs.append(ops)
+    # one account per DISTINCT outcome of every method when called alone (accepted, rejected by comparison,
+    # rejected by an explicit raise, …): (a) the same call made from a worker thread instead of the main
+    # thread must give the same outcome; (b) for the scratch-reading methods, each non-accepting
+    # representative is paired with an accepting one under the scheduler
+    def reps_and_thread_outcomes():
+        import threading
+        out = {}
+        rr = __import__("random").Random(run.seed * 77 + 5)
+        for m in registered:
+            seen = {}
+            for _ in range(400):
+                a = "".join(rr.choice(DIGITS) for _ in range(10))
+                if rr.random() < 0.3:
+                    a = "000" + a[3:]
+                o = real(["algo.validate", hx("DE:" + m), "-", hx(a)])
+                seen.setdefault(o, a)
+            res = {}
+            for o, a in seen.items():
+                box = {}
+                t = threading.Thread(target=lambda: box.setdefault("v", real(["algo.validate", hx("DE:" + m), "-", hx(a)])))
+                t.start()
+                t.join(20)
+                res[a] = (o, box.get("v", "no result"))
+            out[m] = res
+        return out
+    per_method = sched.in_child(reps_and_thread_outcomes, timeout=120) or {}
+    for m, res in sorted(per_method.items()):
+        for a, (main_o, thread_o) in sorted(res.items()):
+            run.count(2, key=("thread-identity", m, a), tag="main thread vs worker thread")
+            if main_o != thread_o:
+                run.violation("the same call from a worker thread", [readable_op(["algo.validate", hx("DE:" + m), "-", hx(a)])],
+                              thread_o, main_o, "outcome in the main thread of the same process", kind="schedule",
+                              ops=[["algo.validate", hx("DE:" + m), "-", hx(a)]], schedule=[], expected_alone=[main_o])
+                break
+    for m in base:
+        res = per_method.get(m, {})
+        acc_rep = next((a for a, (o, _) in sorted(res.items()) if o == "ok T"), None)
+        for a, (o, _) in sorted(res.items()):
+            if acc_rep and o not in ("ok T", "ok F"):
+                pairs.append([["algo.validate", hx("DE:" + m), "-", hx(a)], ["algo.validate", hx("DE:" + m), "-", hx(acc_rep)]])
     # first lookups in a fresh process
     pairs.append([["bic.from_bank_code", hx("DE"), hx("43060967")], ["bban.bank", hx("DE"), hx("370400440532013000")]])
     pairs.append([["iban.new", hx("DE65100307000100000111"), "F", "T"], ["bic.candidates", hx("DE"), hx("10030700")]])
@@ -2778,16 +2855,19 @@ def c13(run):
             "    except Exception as e: print(cc, seed, ur, type(e).__name__)\n") % REPO
     inp = "\n".join(f"{cc},{run.seed * 31 + k},{ur}" for cc in sample + ["-"] for k in range(3) for ur in "TF")
     outs = []
-    for hs in ("0", "1", "12345"):
-        p = subprocess.run([_sys.executable, "-c", code], input=inp.encode(), capture_output=True,
-                           env=dict(__import__("os").environ, PYTHONHASHSEED=hs))
-        outs.append(p.stdout.decode())
-        run.count(len(inp.split()), tag="cross-process draw")
+    for name, flags, env in process_configs():
+        p = subprocess.run([_sys.executable] + flags + ["-c", code], input=inp.encode(), capture_output=True,
+                           env=env)
+        outs.append(p.stdout.decode(errors="replace") or ("no output: " + p.stderr.decode(errors="replace")[-200:]))
+        run.count(len(inp.split()), tag="cross-process draw (" + name + ")")
     if len(set(outs)) != 1:
-        a, b = outs[0].splitlines(), next(o for o in outs if o != outs[0]).splitlines()
-        diff = next((x, y) for x, y in zip(a, b) if x != y)
-        run.violation("IBAN.random in fresh interpreters", [diff[0].split(" ")[:3]], diff[1], diff[0],
-                      "equal seeds under different PYTHONHASHSEED", kind="config")
+        k = next(j for j, o in enumerate(outs) if o != outs[0])
+        a, b = outs[0].splitlines(), outs[k].splitlines()
+        diff = next(((x, y) for x, y in zip(a, b) if x != y), (a[0] if a else "", b[0] if b else ""))
+        run.violation("IBAN.random in fresh interpreters", [diff[0].split(" ")[:3], process_configs()[k][0]],
+                      diff[1][:200], diff[0][:200],
+                      "equal seeds in fresh interpreters under other process configurations (hash seed, -O, -OO, "
+                      "C locale without UTF-8 mode)", kind="config")
     for l in outs[0].splitlines():
         parts = l.split(" ")
         if not (len(parts[3]) > 8 or parts[3] == "GenerateRandomOverflowError"):
